@@ -149,7 +149,7 @@ package SolarUtil
 //@ # the year field of any valid date with day number j is yOf(j)
 //@ lemma yearOfDate(y int, m int, d int) [C01]
 //@   requires 0 <= y && y <= 9999 && validYmd(y, m, d)
-//@   ensures yOf(jdn(y, m, d)) == y && 1721058 <= jdn(y, m, d) && jdn(y, m, d) <= 5373484
+//@   ensures yOf(jdn(y, m, d)) == y && mOf(jdn(y, m, d)) == m && dOf(jdn(y, m, d)) == d && 1721058 <= jdn(y, m, d) && jdn(y, m, d) <= 5373484
 //@   use ymdOf(jdn(y, m, d))
 //@   use jdnMono(y, m, d, yOf(jdn(y, m, d)), mOf(jdn(y, m, d)), dOf(jdn(y, m, d)))
 //@   use jdnMono(yOf(jdn(y, m, d)), mOf(jdn(y, m, d)), dOf(jdn(y, m, d)), y, m, d)
